@@ -550,11 +550,19 @@ async fn run_case(addr: SocketAddr, certs: &Certs, t: &[&str]) -> anyhow::Result
             let _ = r1.finish().await;
             drop(r1);
             tokio::time::sleep(Duration::from_millis(1200)).await;
+            // (what counts is what the router has observed: on a starved machine the end of the first replier's stream may not
+            // have been polled yet - a newcomer that is turned away tries again, as the library does)
             let mut r2 = raw_stream(&conn).await?;
-            r2.send(reg_frame("RR", &ns, &tp)).await?;
-            let a2 = answer(&mut r2).await;
-            // bound: nothing further is said to it
-            let told = match tokio::time::timeout(Duration::from_millis(1500), r2.next()).await { Err(_) => "nothing".to_string(), Ok(None) | Ok(Some(Err(_))) => "closed".to_string(), Ok(Some(Ok(Frame::Error(e)))) => format!("Error{}", e.code), Ok(Some(Ok(_))) => "frame".to_string() };
+            let mut a2 = String::new();
+            let mut told = String::new();
+            for attempt in 0..3 {
+                if attempt > 0 { tokio::time::sleep(Duration::from_millis(1500)).await; r2 = raw_stream(&conn).await?; }
+                r2.send(reg_frame("RR", &ns, &tp)).await?;
+                a2 = answer(&mut r2).await;
+                // bound: nothing further is said to it
+                told = match tokio::time::timeout(Duration::from_millis(1500), r2.next()).await { Err(_) => "nothing".to_string(), Ok(None) | Ok(Some(Err(_))) => "closed".to_string(), Ok(Some(Ok(Frame::Error(e)))) => format!("Error{}", e.code), Ok(Some(Ok(_))) => "frame".to_string() };
+                if told != "Error5" { break; }
+            }
             let mut served2 = "-".to_string();
             if told == "nothing" {
                 let mut q = match rq.take() { Some(q) => q, None => { let mut q = raw_stream(&rconn).await?; q.send(reg_frame("RQ", &ns, &tp)).await?; let _ = answer(&mut q).await; q } };
@@ -583,13 +591,25 @@ async fn run_case(addr: SocketAddr, certs: &Certs, t: &[&str]) -> anyhow::Result
                         b.wait().await;
                         s.send(reg_frame("RR", &ns, &tp)).await?;
                         let a = answer(&mut s).await;
-                        let then = match tokio::time::timeout(Duration::from_millis(1200), s.next()).await { Err(_) => "nothing".to_string(), Ok(None) | Ok(Some(Err(_))) => "closed".to_string(), Ok(Some(Ok(Frame::Error(e)))) => format!("Error{}", e.code), Ok(Some(Ok(_))) => "frame".to_string() };
-                        Ok::<_, anyhow::Error>((s, format!("{a}+{then}")))
+                        Ok::<_, anyhow::Error>((s, a))
                     }));
                 }
+                let mut regs = vec![];
+                for h in hs { if let Ok(Ok(Ok(x))) = tokio::time::timeout(Duration::from_secs(6), h).await { regs.push(x); } }
                 let mut outs = vec![];
-                let mut keep = vec![];
-                for h in hs { match tokio::time::timeout(Duration::from_secs(6), h).await { Ok(Ok(Ok((s, o)))) => { outs.push(o); keep.push(s); } _ => outs.push("hang".to_string()) } }
+                if regs.len() == 2 {
+                    let (mut s2, a2) = regs.pop().unwrap();
+                    let (mut s1, a1) = regs.pop().unwrap();
+                    let show = |r: Option<Result<Frame, _>>| -> String { match r { None | Some(Err::<Frame, selium::std::errors::SeliumError>(_)) => "closed".to_string(), Some(Ok(Frame::Error(e))) => format!("Error{}", e.code), Some(Ok(_)) => "frame".to_string() } };
+                    // whoever is told something first (up to 8 s); the other one then stays undisturbed for a moment
+                    let first = tokio::select! { r = s1.next() => Some((1, show(r))), r = s2.next() => Some((2, show(r))), _ = tokio::time::sleep(Duration::from_secs(8)) => None };
+                    match first {
+                        None => { outs.push(format!("{a1}+nothing")); outs.push(format!("{a2}+nothing")); }
+                        Some((1, t1)) => { outs.push(format!("{a1}+{t1}")); let t2 = match tokio::time::timeout(Duration::from_millis(400), s2.next()).await { Err(_) => "nothing".to_string(), Ok(r) => show(r) }; outs.push(format!("{a2}+{t2}")); }
+                        Some((_, t2)) => { outs.push(format!("{a2}+{t2}")); let t1 = match tokio::time::timeout(Duration::from_millis(400), s1.next()).await { Err(_) => "nothing".to_string(), Ok(r) => show(r) }; outs.push(format!("{a1}+{t1}")); }
+                    }
+                    drop(s1); drop(s2);
+                } else { outs.push("hang".to_string()); }
                 outs.sort();
                 if outs != vec!["Ok+Error5".to_string(), "Ok+nothing".to_string()] { verdict = format!("FAILED:round{round}:{}", outs.join("/")); break; }
             }
